@@ -83,6 +83,16 @@ PROPS = {
         'level_text': 'Composition only: Verus proves on the real encrypt_impl / decrypt_impl / aes_ctr bodies that each of the four modes dispatches to the named cipher with the caller key and IV (CTR from offset 0), that a key or IV of the wrong size yields Err and never a panic, that CBC decryption propagates length/padding rejection; decrypt o encrypt = id and the length laws follow from the stated cipher axioms.',
         'level_note': TB + ' The AES primitives are assumed, not verified.',
     },
+    'C06': {
+        'units': {
+            'signature_glue': ['*'],
+        },
+        'assumptions': ['k256 / ecdsa crates: DER encode/decode (strict, der_dec(der_enc(s)) == s, no trailing bytes accepted), from_scalars validity, public-key recovery are uninterpreted functions with the named axioms; that recovery returns the SIGNER key is the axiom axiom_sign_recovers, and that it fails or differs for another message is NOT decided',
+                        'num-derive table for SigHash generated from the enum in the current source'],
+        'design_ref': 'DESIGN.md section 4 C06',
+        'level_text': 'Verus proves on the real bodies: from_der parses plain DER as given (whatever its last byte) and DER+flag by stripping exactly one valid flag byte, and accepts nothing else; compact form = [27 + recid + 4*compressed] ++ r ++ s; from_compact accepts exactly 65 bytes with header 27..=34 and in-range scalars, decodes the recovery id and compression marker (round trip of all 8 header combinations by lemma), and never panics; SighashSignature = strict DER ++ flag byte both ways; recovery uses the recorded id, the same digest selection as signing and the recorded compression form, and a digest that is not 32 bytes is an error.',
+        'level_note': TB + ' Elliptic-curve mathematics and DER parsing inside k256 are assumed.',
+    },
     'C04': {
         'units': {
             'tx_cache': ['*'],
@@ -98,7 +108,6 @@ PROPS = {
 
 NOT_CLAIMED = {
     'C05': 'not reached yet',
-    'C06': 'not reached yet',
     'C07': 'not reached yet',
     'C08': 'not reached yet',
     'C09': 'not reached yet',
